@@ -109,7 +109,7 @@ Theorem c11_monitor_predicates :
     (is_staleb now maxAge p = true <-> is_stale now maxAge p) /\
     (stale now maxAge p = true <-> is_stale now maxAge p) /\
     (durably_running p = true <-> is_running p).
-Proof. intros. split; [apply is_staleb_iff|split; [apply stale_iff|apply running_iff]]. Qed.
+Proof. exact monitor_predicates. Qed.
 Print Assumptions c11_monitor_predicates.
 
 (* ---- not vacuous: a store of five plans (never started; terminal with a stray Running child; Running
